@@ -787,14 +787,14 @@ func (in *Interp) symSprintf(f string, argv Value) Value {
 			} else {
 				in.unsupported("fmt: symbolic argument for " + verb)
 			}
-		} else if itf, isI := arg.(Iface); isI && (verb == "%X" || verb == "%x") && isBVTerm(itf.v) {
+		} else if itf, isI := arg.(Iface); isI && hexVerbWidth(verb) >= 0 && isBVTerm(itf.v) {
 			_, signed, _ := basicInfo(itf.t)
 			if signed {
 				// negative values print with a sign; require non-negative
 				t := itf.v.(*Term)
 				in.trapCheck(in.ts.SLe(in.ts.BVConst(0, int(t.sort.W)), t), "gosym: negative symbolic value in %x", token.NoPos)
 			}
-			out = in.strConcat(out, in.symFormatHex(itf.v.(*Term), verb == "%X"))
+			out = in.strConcat(out, in.symFormatHex(itf.v.(*Term), verb[len(verb)-1] == 'X', hexVerbWidth(verb)))
 		} else if itf, isI := arg.(Iface); isI {
 			if t, isT := itf.v.(*Term); isT && t.sort.K == SBV {
 				// diagnostics only: a symbolic integer/rune is rendered as one
@@ -820,12 +820,46 @@ func isBVTerm(v Value) bool {
 // symFormatHex renders a symbolic unsigned integer in hexadecimal without
 // leading zeros: the digit count is a solver decision (fork), every digit a
 // term.
-func (in *Interp) symFormatHex(t *Term, upper bool) Str {
+// hexVerbWidth: %x / %X -> 0, %0Nx / %0NX -> N, anything else -> -1.
+func hexVerbWidth(verb string) int {
+	if len(verb) < 2 || verb[0] != '%' || (verb[len(verb)-1] != 'x' && verb[len(verb)-1] != 'X') {
+		return -1
+	}
+	mid := verb[1 : len(verb)-1]
+	if mid == "" {
+		return 0
+	}
+	if mid[0] != '0' {
+		return -1
+	}
+	n := 0
+	for _, c := range mid[1:] {
+		if c < '0' || c > '9' {
+			return -1
+		}
+		n = n*10 + int(c-'0')
+	}
+	return n
+}
+
+func (in *Interp) symFormatHex(t *Term, upper bool, minDigits int) Str {
 	ts := in.ts
 	w := int(t.sort.W)
 	maxDigits := (w + 3) / 4
+	if minDigits > maxDigits {
+		// zero padding beyond the width of the type
+		pad := make([]*Term, minDigits-maxDigits)
+		for i := range pad {
+			pad[i] = ts.BVConst('0', 8)
+		}
+		rest := in.symFormatHex(t, upper, maxDigits)
+		return normStr(append(pad, rest.s...))
+	}
+	if minDigits < 1 {
+		minDigits = 1
+	}
 	nd := maxDigits
-	for k := 1; k < maxDigits; k++ {
+	for k := minDigits; k < maxDigits; k++ {
 		if in.branch(ts.ULt(t, ts.BVConst(uint64(1)<<uint(4*k), w))) {
 			nd = k
 			break
